@@ -122,7 +122,7 @@ class Run:
 
     def error(self, text):
         self.errors.append(text)
-        sys.stderr.write("CHECKER-ERROR: %s\n" % text)
+        print("CHECKER-ERROR: %s" % text[:600])
 
     # -- finishing -------------------------------------------------------
     def _replay_dir(self):
@@ -158,6 +158,7 @@ class Run:
                 unknowns.append(ob)
             elif ob.verdict == ERROR:
                 self.errors.append("obligation %s: %s" % (ob.name, ob.detail[:300]))
+                print("CHECKER-ERROR: obligation %s: %s" % (ob.name, ob.detail[:300]))
         # known findings that no longer reproduce are reported (not an error)
         printed = set()
         for k, ob in known_hits:
@@ -221,6 +222,7 @@ class Run:
         obs = self.obligations
         proof_obs = [o for o in obs if o.kind in ("proof", "ground")]
         bounded_obs = [o for o in obs if o.kind == "bounded"]
+        kh_ids = {id(ob) for _, ob in known_hits}
         by_backend = {}
         for o in obs:
             b = by_backend.setdefault(o.backend or "?", {"n": 0, "seconds": 0.0})
@@ -232,10 +234,11 @@ class Run:
             samples.append(o.as_json())
         for o in violations[:10]:
             samples.append(o.as_json())
-        kh_ids = {id(ob) for _, ob in known_hits}
         cov = {
-            "obligations": len(proof_obs),
-            "discharged": sum(1 for o in proof_obs if o.verdict == PROVED) ,
+            # known findings are genuine, recorded defects: they are reported under their own key and are
+            # not part of the obligation count of the claim
+            "obligations": sum(1 for o in proof_obs if id(o) not in kh_ids),
+            "discharged": sum(1 for o in proof_obs if o.verdict == PROVED),
             "refuted_known_findings": sum(1 for o in proof_obs if id(o) in kh_ids),
             "checker_cmd": self.checker_cmd,
             "trusted_base": self.trusted,
